@@ -88,6 +88,8 @@ def run(sc):
             t = round(rng.uniform(0.1, sc['horizon']), 3)
             # (40000 and 70000 characters with auto_message_payload: PDUs larger than any buffer or slice size a writer may use)
             text = rng.choice(('hello', 'x' * 600, 'ж' * 200, 'y' * 9000, 'z' * 40000, 'w' * 70000 if rng.random() < 0.3 else 'v' * 33000))
+            if sc.get('big'):
+                text = rng.choice(('z' * 40000, 'v' * 17000, 'w' * 70000, 'u' * 33000))
             auto = rng.random() < 0.5
             s.at(t, s.enqueue, SubmitSm(short_message=text, auto_message_payload=auto, log_id='m'))
         seqs = {'n': 9000}
